@@ -145,6 +145,23 @@ for _k, _c in EXTRA3.items():
     c0, n0, t0 = CLAIMS[_k]
     CLAIMS[_k] = (c0 + _c, n0, t0)
 
+# clauses added by the rules written for the defect hunters' findings
+EXTRA4 = {
+ "C04": "; every construction of a grant-scoping struct in the precompiles assigns all of its fields (allow list included)",
+ "C05": "; every Run of a precompile with Cosmos-side effects dispatches on a CacheContext branch written on every success exit and on no failure path; StateDB.Commit must revisit what an earlier mid-transaction Commit wrote (it does not: open known finding)",
+ "C07": "; the precompile gas meter's limit covers the gas it is pre-charged with (C16 R3 imported)",
+ "C08": "; the EVM keeper removes an account on self-destruct only where it is not a vesting account",
+ "C09": "; the funder is recorded as the canonical String() of a parsed address; Validate accepts the start == end account a clawback can leave",
+ "C10": "; no transaction handler of a wired precompile reaches a nested EVM execution (ICS-20 transfer does: open known finding)",
+ "C11": "; the grant Redeem merges names the module as funder only (it also takes the receiver's funder: open known finding)",
+ "C12": "; zero shares are not handed to the keeper; genesis validation can fail (it is a stub: open known finding)",
+ "C15": "; the EVM keeper never lowers the balance of a blocked address",
+ "C16": "; ABI integers are narrowed only under an IsInt64/IsUint64 guard; the precompile gas meter's limit covers its pre-charge; supplyOf answers for every address balances/totalSupply can list (it does not for unregistered vouchers: open known finding)",
+}
+for _k, _c in EXTRA4.items():
+    c0, n0, t0 = CLAIMS[_k]
+    CLAIMS[_k] = (c0 + _c, n0, t0)
+
 BUILT = json.load(open('/verif/tools/built.json'))
 
 m = {"version": 1,
